@@ -82,11 +82,11 @@ Section JwtProofs.
   Lemma unauthorized_not_ran cb : j_ran (unauthorized cb) = false.
   Proof. destruct cb; reflexivity. Qed.
 
-  (* the gate: for every counter state, the handler runs iff the Spec admits *)
+  (* the gate: for every counter state, the handler runs iff the Spec accepts *)
   Lemma jwt_iff : lib_contract -> forall cb now p secret prev tok,
-    j_ran (snd (authorize jwt_parse cb now p secret prev tok)) = jwt_admit jwt_ok secret prev tok.
+    j_ran (snd (authorize jwt_parse cb now p secret prev tok)) = jwt_accept jwt_ok secret prev tok.
   Proof.
-    intros L cb now p secret prev tok. unfold authorize, jwt_admit.
+    intros L cb now p secret prev tok. unfold authorize, jwt_accept.
     pose proof (parse_token_accept now p secret prev tok) as HA.
     pose proof (parse_token_result now p secret prev tok) as HR.
     destruct (parse_token jwt_parse now p secret prev tok) as [p' [v|]]; simpl in *.
@@ -107,7 +107,7 @@ Section JwtProofs.
   (* histories: the n-th decision of one middleware instance is the Spec's, for every starting state *)
   Lemma jwt_history : lib_contract -> forall cb secret prev reqs p,
     map j_ran (snd (run_jwt jwt_parse cb p secret prev reqs)) =
-    map (fun nt => jwt_admit jwt_ok secret prev (snd nt)) reqs /\
+    map (fun nt => jwt_accept jwt_ok secret prev (snd nt)) reqs /\
     reset_time (fst (run_jwt jwt_parse cb p secret prev reqs)) = reset_time p /\
     reset_dur (fst (run_jwt jwt_parse cb p secret prev reqs)) = reset_dur p.
   Proof.
@@ -137,7 +137,7 @@ Section JwtProofs.
     rewrite negb_true_iff, <- not_true_iff_false, HE. tauto.
   Qed.
 
-  (* an admitted request sees exactly the non-registered claims of the token *)
+  (* an accepted request sees exactly the non-registered claims of the token *)
   Lemma claims_visible cb now p secret prev tok :
     j_ran (snd (authorize jwt_parse cb now p secret prev tok)) = true ->
     exists s claims, (s = secret \/ (prev <> 0%N /\ s = prev)) /\
@@ -169,10 +169,10 @@ Section JwtProofs.
       try discriminate; intros _; destruct cb; simpl; auto.
   Qed.
 
-  Lemma jwt_admit_prop (ok : N -> N -> bool) secret prev tok :
-    jwt_admit ok secret prev tok = true <-> ok secret tok = true \/ (prev <> 0%N /\ ok prev tok = true).
+  Lemma jwt_accept_prop (ok : N -> N -> bool) secret prev tok :
+    jwt_accept ok secret prev tok = true <-> ok secret tok = true \/ (prev <> 0%N /\ ok prev tok = true).
   Proof.
-    unfold jwt_admit. rewrite orb_true_iff, andb_true_iff, negb_true_iff, N.eqb_neq. tauto.
+    unfold jwt_accept. rewrite orb_true_iff, andb_true_iff, negb_true_iff, N.eqb_neq. tauto.
   Qed.
 
   Lemma jwt_iff_full : lib_contract -> forall cb now p secret prev tok,
@@ -180,7 +180,7 @@ Section JwtProofs.
     (j_ran (snd r) = true <-> jwt_ok secret tok = true \/ (prev <> 0%N /\ jwt_ok prev tok = true)) /\
     reset_time (fst r) = reset_time p /\ reset_dur (fst r) = reset_dur p.
   Proof.
-    intros L cb now p secret prev tok. cbv zeta. rewrite (jwt_iff L). split; [apply jwt_admit_prop|].
+    intros L cb now p secret prev tok. cbv zeta. rewrite (jwt_iff L). split; [apply jwt_accept_prop|].
     apply authorize_fields.
   Qed.
 End JwtProofs.
@@ -201,7 +201,7 @@ Proof. unfold wrap64. rewrite pow63, pow64. intro H. lia. Qed.
 Lemma wrap64_range z : - 2^63 <= wrap64 z < 2^63.
 Proof. unfold wrap64. rewrite pow63, pow64. lia. Qed.
 
-(* wrap-around never admits: an admitted timestamp is within the tolerance over Z *)
+(* wrap-around never accepts: an accepted timestamp is within the tolerance over Z *)
 Lemma time_window_no_wrap tol now ts :
   0 <= tol < 2^62 -> 0 <= now < 2^62 -> - 2^63 <= ts < 2^63 ->
   window_rejects tol now ts = false -> Z.abs (ts - now) <= tol.
@@ -368,12 +368,12 @@ Section SigProofs.
   Definition q_of (h : cs_header) (r : request) : signed_request :=
     mkq true (h_key h) (h_ts h) (parse_int64 (h_ts h)) (h_sig h) (r_method r) (fst (eff r)) (snd (eff r)) (r_body r).
 
-  (* VerifySignature passes iff the Spec admits (no-overflow range for tolerance and clock) *)
+  (* VerifySignature passes iff the Spec accepts (no-overflow range for tolerance and clock) *)
   Lemma verify_spec tol now r h :
     0 <= tol -> 0 <= now -> now + 2 * tol < 2^63 ->
-    (verify tol now r h = code_pass <-> sig_admit hmac_b64 sha_hex tol now (q_of h r) = true).
+    (verify tol now r h = code_pass <-> sig_accept hmac_b64 sha_hex tol now (q_of h r) = true).
   Proof.
-    intros Ht Hn Hb. unfold verify_signature, sig_admit, q_of.
+    intros Ht Hn Hb. unfold verify_signature, sig_accept, q_of.
     cbn [q_decrypts q_ts q_key q_ts_text q_sig q_method q_path q_query q_body andb].
     destruct (parse_int64 (h_ts h)) as [sec|] eqn:E; [|split; discriminate].
     pose proof (time_window_exact tol now sec Ht Hn Hb (parse_int64_range _ _ E)) as HW.
@@ -383,12 +383,12 @@ Section SigProofs.
     destruct (bytes_eqb (h_sig h) (hmac_b64 (h_key h) (content (h_ts h) (r_method r) p q (sha_hex (r_body r))))); split; auto; discriminate.
   Qed.
 
-  (* ... and in every range, passing implies the Spec admits (wrap-around never admits) *)
+  (* ... and in every range, passing implies the Spec accepts (wrap-around never accepts) *)
   Lemma verify_sound tol now r h :
     0 <= tol < 2^62 -> 0 <= now < 2^62 ->
-    verify tol now r h = code_pass -> sig_admit hmac_b64 sha_hex tol now (q_of h r) = true.
+    verify tol now r h = code_pass -> sig_accept hmac_b64 sha_hex tol now (q_of h r) = true.
   Proof.
-    intros Ht Hn. unfold verify_signature, sig_admit, q_of.
+    intros Ht Hn. unfold verify_signature, sig_accept, q_of.
     cbn [q_decrypts q_ts q_key q_ts_text q_sig q_method q_path q_query q_body andb].
     destruct (parse_int64 (h_ts h)) as [sec|] eqn:E; [|discriminate].
     destruct ((wrap64 (sec + tol) <? now) || (wrap64 (now + tol) <? sec)) eqn:W; [discriminate|].
@@ -465,12 +465,12 @@ Section SigProofs.
     - cbn. split; [discriminate|]. intros [h' [Hp _]]. discriminate.
   Qed.
 
-  (* strict mode against the Spec: the handler runs iff the header decrypts, the Spec admits, and --
+  (* strict mode against the Spec: the handler runs iff the header decrypts, the Spec accepts, and --
      when the request announces an encrypted body -- that body decrypts *)
   Lemma sig_strict_spec tol now r :
     0 <= tol -> 0 <= now -> now + 2 * tol < 2^63 -> method_checked r = true ->
     (s_ran (gate true tol now r) = true <->
-     exists h, parse r = inl h /\ sig_admit hmac_b64 sha_hex tol now (q_of h r) = true /\
+     exists h, parse r = inl h /\ sig_accept hmac_b64 sha_hex tol now (q_of h r) = true /\
                ((0 <? r_clen r) && (h_ctype h =? encryption_type) = true -> body_dec_ok (h_key h) r = true)).
   Proof.
     intros Ht Hn Hb Hm. rewrite (strict_iff tol now r Hm).
@@ -509,7 +509,7 @@ Section SigProofs.
     unfold fields_of in Hd. eapply content_single_change in Hd; [|exact sha_inj]. apply Hd. exact Hp'.
   Qed.
 
-  (* the gate: a single-field tampering of an admitted request gets 403 in strict mode (as long as
+  (* the gate: a single-field tampering of an accepted request gets 403 in strict mode (as long as
      the method is still one of the guarded ones -- otherwise the gate does not look at all) *)
   Lemma tamper_rejected tol now r r' h h' :
     parse r = inl h -> verify tol now r h = code_pass ->
@@ -586,16 +586,16 @@ Proof.
     unfold validate. destruct (alookup N.eqb app cache); [reflexivity|]. destruct (store app); reflexivity.
 Qed.
 
-(* the same as a refinement of the Spec: the decision is rpc_admit on the server's view of the store *)
+(* the same as a refinement of the Spec: the decision is rpc_accept on the server's view of the store *)
 Lemma rpc_refines strict cache store md :
   match md_creds md with
   | None => authenticate strict cache store md = (cache, rpc_unauthenticated) /\
-            rpc_admit strict false StNone 0%N = false
+            rpc_accept strict false StNone 0%N = false
   | Some (app, token) =>
       let st := to_stored (store app) in
       fst (authenticate strict cache store md) = rpc_memo cache st app /\
       (snd (authenticate strict cache store md) = rpc_ok <->
-       rpc_admit strict true (rpc_view cache st app) token = true) /\
+       rpc_accept strict true (rpc_view cache st app) token = true) /\
       (snd (authenticate strict cache store md) <> rpc_ok ->
        snd (authenticate strict cache store md) =
          match rpc_view cache st app with StTok _ => rpc_unauthenticated | _ => rpc_internal end)
@@ -603,7 +603,7 @@ Lemma rpc_refines strict cache store md :
 Proof.
   destruct (rpc_table strict cache store) as [T1 T2].
   destruct (md_creds md) as [[app token]|] eqn:E.
-  - specialize (T2 md app token E). unfold rpc_view, rpc_memo, rpc_admit.
+  - specialize (T2 md app token E). unfold rpc_view, rpc_memo, rpc_accept.
     destruct (alookup N.eqb app cache) as [t|].
     + rewrite T2. cbn. destruct (token =? t)%N; unfold rpc_ok, rpc_unauthenticated, rpc_internal;
         repeat split; intros; auto; try discriminate; try congruence.
@@ -629,7 +629,7 @@ Fixpoint run_rpc (strict : bool) (cache : list (N * N)) (steps : list ((N -> sto
 Definition cache_sound (cache : list (N * N)) (past : list (N -> store_res)) : Prop :=
   forall app t, alookup N.eqb app cache = Some t -> exists st, In st past /\ st app = SVal t.
 
-(* in strict mode a call is admitted only with a token that the store has held for its app at some
+(* in strict mode a call is accepted only with a token that the store has held for its app at some
    point of the history (now or at an earlier fetch, because of the cache) *)
 Lemma rpc_strict_sound : forall steps cache past i store md app token,
   cache_sound cache past ->
